@@ -9,9 +9,9 @@ import runlib
 import tlc
 
 
-def execute(cases, timeout=180):
+def execute(cases, timeout=180, python=None):
     """cases: [{id, world, o, mode}] -> {id: result}."""
-    refs = runlib.compute_refs([c['world'] for c in cases])
+    refs = runlib.compute_refs([c['world'] for c in cases], python=python)
     for c, r in zip(cases, refs):
         c['ref'] = r
     inproc = [c for c in cases if c['mode'] == 'inproc']
@@ -21,7 +21,7 @@ def execute(cases, timeout=180):
         jobs = [{'id': c['id'], 'world': c['world'],
                  'args': abstract.concrete_args(c['o']),
                  'stdout_kind': c.get('stdout_kind', 'file')} for c in inproc]
-        for c, r in zip(inproc, runlib.run_inproc_many(jobs)):
+        for c, r in zip(inproc, runlib.run_inproc_many(jobs, python=python)):
             out[c['id']] = r
     if cli:
         jobs = [(c['world'], abstract.concrete_args(c['o']),
